@@ -98,7 +98,7 @@ theorem reach_without_iff (G : Graph) (a b x y : Nat) :
       ((G.arc u w || G.arc w u) = true ∧ EdgeNe a b u w) := by
     intro u w
     simp only [arcWithout, EdgeNe, Bool.or_eq_true, Bool.and_eq_true, Bool.not_eq_true',
-      Bool.or_eq_false_iff, Bool.and_eq_false_iff, beq_eq_false_iff_ne, ne_eq, beq_iff_eq]
+      Bool.or_eq_false_iff, Bool.and_eq_false_iff, beq_eq_false_iff_ne, ne_eq]
     constructor
     · rintro (⟨h1, h2, h3⟩ | ⟨h1, h2, h3⟩)
       · refine ⟨Or.inl h1, ?_⟩
